@@ -20,6 +20,8 @@ use tarpc::{context, ClientMessage, Request, Response};
 
 #[derive(Default)]
 struct Shared {
+    /// readiness polls since the driver last polled the task (watchdog against retrying within one poll)
+    ready_polls: usize,
     gate_open: bool,
     granted: bool,
     inbound: VecDeque<ClientMessage<String>>,
@@ -51,6 +53,10 @@ impl Sink<Response<String>> for T {
     type Error = std::io::Error;
     fn poll_ready(self: Pin<&mut Self>, _: &mut Context<'_>) -> Poll<Result<(), Self::Error>> {
         let mut s = self.0.lock().unwrap();
+        s.ready_polls += 1;
+        if s.ready_polls > 10_000 {
+            panic!("C14: the transport said not-ready and its readiness was polled more than 10000 times within one poll of the task: retrying within the same poll instead of returning control");
+        }
         if s.gate_open {
             s.granted = true;
             Poll::Ready(Ok(()))
@@ -109,6 +115,7 @@ where
     S: Stream<Item = Result<server::InFlightRequest<String, String>, C>> + Unpin,
 {
     fn poll(&mut self) {
+        self.shared.lock().unwrap().ready_polls = 0;
         // the request stream (also drives response writing)
         loop {
             if self.ended {
